@@ -8,6 +8,8 @@ import NetaddrVerif.Lemmas.TieL
 import NetaddrVerif.Model.Convert
 import NetaddrVerif.Model.Compare
 import NetaddrVerif.Model.Address
+import NetaddrVerif.Model.ListLike
+import NetaddrVerif.Props.Tie
 namespace NV.Tie
 open NV NV.Trans
 
@@ -83,6 +85,23 @@ theorem net_set_prefixlen (n : Net) (i : Int) :
   · have e : ((i.toNat : Nat) : Int) = i := Int.toNat_of_nonneg h.1
     simp [h, Except.map, e]
   · simp [h, Except.map]
+
+/-! ### `len()` of the ranged objects (`sys.maxsize` is a parameter, as in `ListLike.len`) -/
+
+theorem rng_size (r : Rng) : IPRange_size r.ver r.lo r.hi = ListLike.size (ListLike.ofRng r) := by
+  simp only [tie_unfold, ListLike.size, ListLike.ofRng]
+
+theorem rng_len (r : Rng) (maxsize : Nat) :
+    IPRange_len r.ver r.lo r.hi (maxsize : Int) = ListLike.len maxsize (ListLike.ofRng r) := by
+  have h := rng_size r
+  simp only [IPRange_len, h, ListLike.len]
+
+theorem net_len (n : Net) (maxsize : Nat) (hp : n.plen ≤ width n.ver) :
+    IPNetwork_len n.ver n.val n.plen (maxsize : Int) = ListLike.len maxsize (ListLike.ofNet n) := by
+  have h1 := net_first n.ver n.val n.plen hp
+  have h2 := net_last n.ver n.val n.plen hp
+  simp only [IPNetwork_len, IPNetwork_size, h1, h2, ListLike.len, ListLike.size, ListLike.ofNet, Net.first, Net.last]
+  rfl
 
 example : BaseIP_is_ipv4_mapped 6 0xffff01020304 = true ∧ BaseIP_is_ipv4_compat 6 0xffff01020304 = false ∧
     IPNetwork_set_prefixlen 4 5 24 33 = .error .addrFormat ∧ IPNetwork_set_prefixlen 4 5 24 32 = .ok (5, 32) := by decide
